@@ -31,6 +31,21 @@ Definition sPortMirror := S "PortMirror".
 Definition sL2Multisite := S "L2Multisite".
 Definition dash := S "-".
 
+(* ---- owners (used by the rules of T7WF.v and by the scope of a rename) -------------------------------- *)
+Definition nb_where (g : graph) (x : str) (P : str -> rel -> bool) : list str :=
+  map fst (filter (fun p => P (fst p) (snd p)) (nbrs g x)).
+
+(* rule 9: the owning node(s) of a component *)
+Definition comp_owners (g : graph) (x : str) : list str :=
+  nb_where g x (fun j r => rel_eqb r Has && (cls_is g j KNode || cls_is g j KComposite)).
+(* the owner(s) of a network service: node, composite node or component *)
+Definition ns_owners (g : graph) (x : str) : list str :=
+  nb_where g x (fun j r => rel_eqb r Has && (cls_is g j KNode || cls_is g j KComposite || cls_is g j KComp)).
+(* the owner(s) of an interface: a service, or for a sub-interface its parent interface *)
+Definition cp_owners (g : graph) (x : str) : list str :=
+  nb_where g x (fun j r => rel_eqb r Connects &&
+                           (cls_is g j KNS || (typ_is g x sSubInterface && cls_is g j KCP && negb (typ_is g j sSubInterface)))).
+
 (* ---- name syntax: BaseSliver.set_name with the NAME_REGEX of each sliver class (ASCII inputs) --------- *)
 Definition is_word (c : N) : bool :=
   ((48 <=? c) && (c <=? 57) || (65 <=? c) && (c <=? 90) || (97 <=? c) && (c <=? 122) || (c =? 95))%N.
@@ -247,9 +262,17 @@ Definition disconnect_one (i : str) : M unit :=
    model walks ITS list in that order (elements the hint does not mention keep their place at the end). *)
 Definition order_by (hint l : list str) : list str :=
   filter (fun x => mem_str x l) (dedup_keep hint) ++ filter (fun x => negb (mem_str x hint)) l.
-Definition disconnect_loop (hint ifs : list str) : M unit :=
+(* node_exists(node_id, label=ConnectionPoint) (networkx_property_graph.py:559) *)
+Definition cp_exists (x : str) : M bool :=
+  g <- getg ;;
+  match filter (fun n => cls_eqb (ncls n) KCP) (find_nodes g x) with
+  | [] => ret false | [_] => ret true | _ => raise EQuery
+  end.
+Definition disconnect_loop (fl : flags) (hint ifs : list str) : M unit :=
   all <- concatM (fun i => ch <- children_of_handle i ;; ret (i :: ch)) ifs ;;
-  for_each (order_by hint all) disconnect_one.
+  for_each (order_by hint all) (fun i =>
+    if fl_skip_gone fl then (ex <- cp_exists i ;; if ex then disconnect_one i else ret tt)
+    else disconnect_one i).
 
 (* ---- element constructors ------------------------------------------------------------------------ *)
 Definition mk (id : str) (k : cls) (t : option str) (name : str) (lab : bool) : node := mkNode id k t (Some name) lab.
@@ -294,8 +317,7 @@ Definition new_interface (sub : bool) (name : str) (iid : option str) (parent : 
   ret id.
 
 (* NetworkService.add_interface (network_service.py:373) on a handle whose cached interface list is
-   `cache` (names).  The cache of a handle is loaded when the handle is made and add_interface never
-   appends to it. *)
+   `cache` (names): loaded when the handle is made, extended by every add_interface (fix 18a115a). *)
 Definition ns_add_interface (sub : bool) (s : str) (cache : list (option str)) (name : str) (iid : option str)
            (itype : str) (lab : bool) : M str :=
   guard (negb (existsb (fun o => ostr_eqb o (Some name)) cache)) ETopology ;;;
@@ -319,7 +341,7 @@ Definition new_link (sub : bool) (name : str) (lid : option str) (ltype : str) (
   ret id.
 
 (* NetworkService.connect_interface (network_service.py:319); i is a fresh Interface handle *)
-Definition connect_interface (sub : bool) (s : str) (i : str) : M unit :=
+Definition connect_interface (fl : flags) (sub : bool) (s : str) (i : str) : M unit :=
   ni <- props i ;;
   iname <- name_prop ni ;;
   (* the same guardrails as for interfaces passed to the constructor (fix 7b9c57b) *)
@@ -333,6 +355,14 @@ Definition connect_interface (sub : bool) (s : str) (i : str) : M unit :=
       ps <- find_peers i ;;
       guard (match ps with None => true | Some _ => false end) ETopology ;;;
       let pname := hname parent ++ dash ++ iname in
+      (* proposed C07-6: the derived names must be free *)
+      (if fl_connect_names fl then
+         cps <- cps_of_ns_or_link s ;;
+         g <- getg ;;
+         guard (negb (name_in g pname cps)) ETopology ;;;
+         u <- check_node_unique KLink (pname ++ S "-link") ;;
+         guard u ETopology
+       else ret tt) ;;;
       pid <- new_interface sub pname None s sServicePort false ;;
       shared <- type_is i sSharedPort ;;
       new_link sub (pname ++ S "-link") None (if shared then sL2Path else sPatch) [i; pid] ;;;
@@ -340,24 +370,24 @@ Definition connect_interface (sub : bool) (s : str) (i : str) : M unit :=
   end.
 
 (* NetworkService(NEW) with interfaces: guardrails, connect, rollback on any exception (:100-119, fix 16ce105) *)
-Fixpoint connect_all (sub : bool) (s : str) (nstype : str) (todo done : list str) : M unit :=
+Fixpoint connect_all (fl : flags) (sub : bool) (s : str) (nstype : str) (todo done : list str) : M unit :=
   match todo with
   | [] => ret tt
   | i :: r =>
       try_any
         (shared <- type_is i sSharedPort ;;
          guard (negb (str_eqb nstype sL2PTP && shared)) ETopology ;;;
-         connect_interface sub s i)
+         connect_interface fl sub s i)
         (fun e =>
          for_each done disconnect_interface ;;;
          remove_ns_with_cps_and_links s ;;;
          raise e) ;;;
-      connect_all sub s nstype r (done ++ [i])
+      connect_all fl sub s nstype r (done ++ [i])
   end.
 
-Definition t_add_ns (sub : bool) (name : str) (sid : option str) (nstype : str) (ifs : list str) : M unit :=
+Definition t_add_ns (fl : flags) (sub : bool) (name : str) (sid : option str) (nstype : str) (ifs : list str) : M unit :=
   s <- new_service name sid nstype None ;;
-  connect_all sub s nstype ifs [].
+  connect_all fl sub s nstype ifs [].
 
 (* ---- component generation (component_catalog.py:65-185) -------------------------------------------------- *)
 Definition cat_entry := (str * list str * str * option (list str))%type.
@@ -446,28 +476,28 @@ Fixpoint find_by_name_lazy (l : list str) (name : str) : M str :=
   end.
 
 (* Node.remove_component (node.py:340) *)
-Definition node_remove_component (hint : list str) (n : str) (name : str) : M unit :=
+Definition node_remove_component (fl : flags) (hint : list str) (n : str) (name : str) : M unit :=
   cs <- components_of n ;;
   c <- find_by_name_lazy cs name ;;
   (* self.components[name]: the handle found through the name-keyed view *)
   ifs <- conn_points_of c ;;
-  disconnect_loop hint ifs ;;;
+  disconnect_loop fl hint ifs ;;;
   remove_component_with_nss c.
 
 (* Topology.remove_node (topology.py:214) *)
-Definition t_remove_node (hint : list str) (name : str) : M unit :=
+Definition t_remove_node (fl : flags) (hint : list str) (name : str) : M unit :=
   g <- getg ;;
   match find (has_name name) (nodes_view g) with
   | None => raise ETopology
   | Some n =>
       ifs <- node_interface_list (nid n) ;;
-      disconnect_loop hint ifs ;;;
+      disconnect_loop fl hint ifs ;;;
       x <- find_node_by_name name KNode ;;
       remove_network_node x
   end.
 
 (* Topology.remove_facility (topology.py:274) *)
-Definition t_remove_facility (hint : list str) (name : str) : M unit :=
+Definition t_remove_facility (fl : flags) (hint : list str) (name : str) : M unit :=
   x <- find_node_by_name name KNode ;;
   fac <- type_is x sFacility ;;
   guard fac ETopology ;;;
@@ -476,17 +506,17 @@ Definition t_remove_facility (hint : list str) (name : str) : M unit :=
   | None => raise EKey
   | Some n =>
       ifs <- node_interface_list (nid n) ;;
-      disconnect_loop hint ifs ;;;
+      disconnect_loop fl hint ifs ;;;
       x <- find_node_by_name name KNode ;;
       remove_network_node x
   end.
 
 (* Topology.remove_switch (topology.py:329) *)
-Definition t_remove_switch (hint : list str) (name : str) : M unit :=
+Definition t_remove_switch (fl : flags) (hint : list str) (name : str) : M unit :=
   x <- find_node_by_name name KNode ;;
   sw <- type_is x sSwitch ;;
   guard sw ETopology ;;;
-  t_remove_node hint name.
+  t_remove_node fl hint name.
 
 Fixpoint seq_from (start len : nat) : list nat :=
   match len with O => [] | Datatypes.S l => start :: seq_from (Datatypes.S start) l end.
@@ -494,32 +524,35 @@ Definition nat_str (n : nat) : str := str_of_Z (Z.of_nat n).
 Definition opt_app (o : option str) (suffix : str) : option str :=
   match o with Some x => Some (x ++ suffix) | None => None end.
 
-(* Topology.add_facility (topology.py:236).  The service handle `facs` is made by add_network_service with an
-   empty interface cache that add_interface never extends: no name check among the facility's interfaces. *)
+(* Topology.add_facility (topology.py:236).  The interfaces are added through ONE service handle whose cached list
+   add_interface now keeps current (fix 18a115a): a repeated name is refused; the facility is a single construct,
+   a rejected later step removes what was built (fix 2982a89). *)
+Fixpoint add_ifaces (sub : bool) (s : str) (cache : list (option str)) (l : list (str * option str * str)) : M unit :=
+  match l with
+  | [] => ret tt
+  | (name, iid, itype) :: r =>
+      ns_add_interface sub s cache name iid itype true ;;;
+      add_ifaces sub s (cache ++ [Some name]) r
+  end.
+Fixpoint number_from {A} (k : nat) (l : list A) : list (nat * A) :=
+  match l with [] => [] | x :: r => (k, x) :: number_from (Datatypes.S k) r end.
 Definition t_add_facility (sub : bool) (name : str) (nid : option str) (ifnames : option (list str)) : M unit :=
   n <- t_add_node sub name nid sFacility ;;
-  (* the facility is a single construct: a rejected later step removes what was built (fix 2982a89) *)
   try_any (
   s <- node_add_ns n (name ++ S "-ns") (opt_app nid (S "-ns")) sVLAN ;;
   match ifnames with
-  | None | Some [] =>
-      ns_add_interface sub s [] (name ++ S "-int") (opt_app nid (S "-int")) sFacilityPort true ;;; ret tt
+  | None | Some [] => add_ifaces sub s [] [(name ++ S "-int", opt_app nid (S "-int"), sFacilityPort)]
   | Some l =>
-      (fix go (l : list str) (k : nat) : M unit :=
-         match l with
-         | [] => ret tt
-         | x :: r =>
-             ns_add_interface sub s [] x (opt_app nid (S "-int" ++ nat_str k)) sFacilityPort true ;;;
-             go r (Datatypes.S k)
-         end) l O
+      add_ifaces sub s [] (map (fun kx => (snd kx, opt_app nid (S "-int" ++ nat_str (fst kx)), sFacilityPort)) (number_from 0 l))
   end) (fun e => remove_network_node n ;;; raise e).
 
-(* Topology.add_switch (topology.py:296) *)
+(* Topology.add_switch (topology.py:296), with the same rollback (fix bf534cb) *)
 Definition t_add_switch (sub : bool) (name : str) (nid : option str) (nports : nat) : M unit :=
   n <- t_add_node sub name nid sSwitch ;;
+  try_any (
   s <- node_add_ns n (name ++ S "-ns") (opt_app nid (S "-ns")) sP4 ;;
-  for_each (seq_from 1 nports) (fun k =>
-    ns_add_interface sub s [] (S "p" ++ nat_str k) (opt_app nid (S "-int" ++ nat_str k)) sDedicatedPort true ;;; ret tt).
+  add_ifaces sub s [] (map (fun k => (S "p" ++ nat_str k, opt_app nid (S "-int" ++ nat_str k), sDedicatedPort)) (seq_from 1 nports)))
+  (fun e => remove_network_node n ;;; raise e).
 
 (* Topology.add_link (topology.py:339) *)
 Definition t_add_link (sub : bool) (name : str) (lid : option str) (ltype : str) (ifs : list str) : M unit :=
@@ -528,27 +561,30 @@ Definition t_add_link (sub : bool) (name : str) (lid : option str) (ltype : str)
   new_link sub name lid ltype ifs ;;; ret tt.
 
 (* Topology.remove_link (topology.py:361) *)
-Definition t_remove_link (name : str) : M unit :=
+Definition t_remove_link (fl : flags) (name : str) : M unit :=
   l <- find_node_by_name name KLink ;;
-  cps_of_ns_or_link l ;;;
+  cps <- cps_of_ns_or_link l ;;
+  (* proposed C07-4: a link made by connect_interface / peer is not removed on its own *)
+  g <- getg ;;
+  guard (negb (fl_link_refuse fl && existsb (fun c => typ_is g c sServicePort) cps)) ETopology ;;;
   remove_network_link l.
 
 (* Topology.remove_network_service (topology.py:385) *)
-Definition t_remove_ns (hint : list str) (name : str) : M unit :=
+Definition t_remove_ns (fl : flags) (hint : list str) (name : str) : M unit :=
   s <- find_node_by_name name KNS ;;
   fresh_ns_cache s ;;;
   (* disconnect what the service's own ports are connected to or peered with (fix 18b6247) *)
   ifs <- cps_of_ns_or_link s ;;
-  disconnect_loop hint ifs ;;;
+  disconnect_loop fl hint ifs ;;;
   remove_ns_with_cps_and_links s.
 
 (* Node.remove_network_service (node.py:362) *)
-Definition node_remove_ns (hint : list str) (n : str) (name : str) : M unit :=
+Definition node_remove_ns (fl : flags) (hint : list str) (n : str) (name : str) : M unit :=
   ss <- nss_of n ;;
   s <- find_by_name_lazy ss name ;;
   fresh_ns_cache s ;;;
   ifs <- cps_of_ns_or_link s ;;
-  disconnect_loop hint ifs ;;;
+  disconnect_loop fl hint ifs ;;;
   remove_ns_with_cps_and_links s.
 
 (* NetworkService.peer (network_service.py:408): both handles are fresh *)
@@ -639,18 +675,40 @@ Definition ref_cls (r : eref) := match r with RNode _ => KNode | RComp _ => KCom
 Inductive pname := PName | PSite | PCapacities | PLabels | PDetails | PTypeNode.
 Inductive uname := UName | UType | USite | UCapacities | ULabels | UDetails | UNoSuch.
 
-Definition elem_set_property (r : eref) (p : pname) (v : str) : M unit :=
+(* proposed C07-3: the elements among which a new name of x must be free (the scopes the constructors check) *)
+Definition rename_siblings (g : graph) (x : str) : list str :=
+  match get_node g x with
+  | None => []
+  | Some n =>
+      match ncls n with
+      | KNode => ids_of_class g KNode
+      | KLink => ids_of_class g KLink
+      | KComp => flat_map (fun o => first_nb g o Has KComp) (comp_owners g x)
+      | KNS => match ns_owners g x with
+               | [] => ids_of_class g KNS
+               | os => flat_map (fun o => first_nb g o Has KNS) os
+               end
+      | KCP => flat_map (fun o => first_nb g o Connects KCP) (cp_owners g x)
+      | _ => []
+      end
+  end.
+Definition name_taken (g : graph) (x : str) (new : str) : bool :=
+  existsb (fun j => negb (str_eqb j x) && ostr_eqb (name_of g j) (Some new)) (rename_siblings g x).
+
+Definition elem_set_property (fl : flags) (r : eref) (p : pname) (v : str) : M unit :=
   let x := ref_id r in
   match p with
-  | PName => check_name (ref_cls r) v ;;; update_node x (set_name v)
+  | PName =>
+      (if fl_rename_check fl then find1 x ;;; g <- getg ;; guard (negb (name_taken g x v)) ETopology else ret tt) ;;;
+      check_name (ref_cls r) v ;;; update_node x (set_name v)
   | PSite => match r with RNode _ | RNS _ => update_node x (fun n => n) | _ => raise EAttribute end
   | PCapacities | PDetails => update_node x (fun n => n)
   | PLabels => update_node x (set_lab true)
   | PTypeNode => update_node x (set_typ v)
   end.
 
-Definition elem_rename (r : eref) (new : str) : M unit :=
-  elem_set_property r PName new ;;; update_node (ref_id r) (set_name new).
+Definition elem_rename (fl : flags) (r : eref) (new : str) : M unit :=
+  elem_set_property fl r PName new ;;; update_node (ref_id r) (set_name new).
 
 Definition elem_unset_property (r : eref) (p : uname) : M unit :=
   let x := ref_id r in
@@ -697,42 +755,42 @@ Inductive op :=
 | OSetProp (r : eref) (p : pname) (v : str)
 | OUnsetProp (r : eref) (p : uname).
 
-Definition run_op (sub : bool) (hint : list str) (o : op) : M unit :=
+Definition run_op (sub : bool) (fl : flags) (hint : list str) (o : op) : M unit :=
   match o with
   | OAddNode name nid ntype => t_add_node sub name nid ntype ;;; ret tt
-  | ORemoveNode name => t_remove_node hint name
+  | ORemoveNode name => t_remove_node fl hint name
   | OAddComponent n name cid ctype model nsid ifids =>
       need KNode n ;;; node_add_component sub n name cid ctype model nsid ifids
   | OAddStorage n name cid => need KNode n ;;; node_add_storage sub n name cid
-  | ORemoveComponent n name => need KNode n ;;; node_remove_component hint n name
+  | ORemoveComponent n name => need KNode n ;;; node_remove_component fl hint n name
   | OAddFacility name nid ifnames => t_add_facility sub name nid ifnames
-  | ORemoveFacility name => t_remove_facility hint name
+  | ORemoveFacility name => t_remove_facility fl hint name
   | OAddSwitch name nid nports => t_add_switch sub name nid nports
-  | ORemoveSwitch name => t_remove_switch hint name
-  | OAddNS name sid nstype ifs => for_each ifs (need KCP) ;;; t_add_ns sub name sid nstype ifs
+  | ORemoveSwitch name => t_remove_switch fl hint name
+  | OAddNS name sid nstype ifs => for_each ifs (need KCP) ;;; t_add_ns fl sub name sid nstype ifs
   | OAddPM name sid to =>
       (* add_port_mirror_service exists on ExperimentTopology only (topology.py:794) *)
-      need KCP to ;;; guard (negb sub) EAttribute ;;; t_add_ns sub name sid sPortMirror [to]
-  | ORemoveNS name => t_remove_ns hint name
+      need KCP to ;;; guard (negb sub) EAttribute ;;; t_add_ns fl sub name sid sPortMirror [to]
+  | ORemoveNS name => t_remove_ns fl hint name
   | ONodeAddNS n name sid nstype => need KNode n ;;; node_add_ns n name sid nstype ;;; ret tt
-  | ONodeRemoveNS n name => need KNode n ;;; node_remove_ns hint n name
+  | ONodeRemoveNS n name => need KNode n ;;; node_remove_ns fl hint n name
   | OAddLink name lid ltype ifs => for_each ifs (need KCP) ;;; t_add_link sub name lid ltype ifs
-  | ORemoveLink name => t_remove_link name
-  | OConnect s i => need KNS s ;;; need KCP i ;;; connect_interface sub s i
+  | ORemoveLink name => t_remove_link fl name
+  | OConnect s i => need KNS s ;;; need KCP i ;;; connect_interface fl sub s i
   | ODisconnect s i => need KNS s ;;; need KCP i ;;; disconnect_interface i
   | OPeer a b => need KNS a ;;; need KNS b ;;; ns_peer sub a b
   | OUnpeer a b => need KNS a ;;; need KNS b ;;; ns_unpeer a b
   | OAddSub i name cid v => need KCP i ;;; iface_add_child sub i name cid v
   | ORemoveSub i name => need KCP i ;;; iface_remove_child i name
-  | ORename r new => need (ref_cls r) (ref_id r) ;;; elem_rename r new
-  | OSetProp r p v => need (ref_cls r) (ref_id r) ;;; elem_set_property r p v
+  | ORename r new => need (ref_cls r) (ref_id r) ;;; elem_rename fl r new
+  | OSetProp r p v => need (ref_cls r) (ref_id r) ;;; elem_set_property fl r p v
   | OUnsetProp r p => need (ref_cls r) (ref_id r) ;;; elem_unset_property r p
   end.
 
 (* one call: the graph after it and its outcome (None = returned normally); `drawn` are the ids the
    implementation drew from uuid4 during the call, the model must consume exactly these *)
-Definition step (sub : bool) (g : graph) (o : op) (drawn hint : list str) : graph * option exn :=
-  match run_op sub hint o (mkSt g drawn) with
+Definition step (sub : bool) (fl : flags) (g : graph) (o : op) (drawn hint : list str) : graph * option exn :=
+  match run_op sub fl hint o (mkSt g drawn) with
   | (s, Ok _) => (sg s, match sdr s with [] => None | _ => Some ENoDraw end)
   | (s, Err e) => (sg s, Some e)
   end.
